@@ -906,3 +906,267 @@ BM = Unit('C15', 'taurex.mixin.core:build_new_mixed_class', _bm_params, post=_bm
           abstract={'new:type': _h_type},
           gen=lambda rng: dict(rng.choice(_BM_CASES)), short='build_new_mixed_class',
           doc='mixin1+mixin2+base builds a class whose bases are the mixins in the order written, then the base')
+
+
+# ================================================================== ParameterParser: from the parsed sections to the object graph
+PPQ = 'taurex.parameter.parameterparser:ParameterParser.'
+_SECTIONS = ['Chemistry', 'Pressure', 'Temperature', 'Planet', 'Star']
+_GEN = {'Chemistry': 'create_chemistry', 'Pressure': 'create_pressure_profile', 'Temperature': 'create_temperature_profile',
+        'Planet': 'create_planet', 'Star': 'create_star'}
+
+
+def _h_cfg_dict(ex, st, o, args, kwargs, node):
+    c = ex.c
+    secs = {}
+    for nm in c.fixed['sections']:
+        secs[nm] = st.alloc(c, PyDict({'tag': 'section:%s' % nm}))
+    if c.fixed.get('fitting') is not None:
+        secs['Fitting'] = st.alloc(c, PyDict(dict(c.fixed['fitting'])))
+    if c.fixed.get('derive') is not None:
+        secs['Derive'] = st.alloc(c, PyDict(dict(c.fixed['derive'])))
+    return st.alloc(c, PyDict(secs))
+
+
+def _h_create(kind):
+    def h(ex, st, args, kwargs, node):
+        cfg = st.get(args[0]).items.get('tag') if isinstance(args[0], Ref) else None
+        _ev(st, kind, cfg)
+        return AbsObj('Built', kind, {})
+    return h
+
+
+def _h_create_model(ex, st, args, kwargs, node):
+    tag = lambda x: (x.ident if isinstance(x, AbsObj) else x)
+    cfg = st.get(args[0]).items.get('tag') if isinstance(args[0], Ref) else None
+    _ev(st, 'create_model', cfg, tuple(tag(a) for a in args[1:]), {k: tag(v) for k, v in kwargs.items()})
+    return AbsObj('Built', 'model', {})
+
+
+def _gm_params(c):
+    given = c.choice('given')
+    mk = lambda nm: AbsObj('Given', 'given:%s' % nm, {}) if nm in given else None
+    if c.mode == 'conc':
+        return dict(self=dict(__obj__='ParameterParser'), chemistry=None, pressure=None, temperature=None, planet=None, star=None, obs=None)
+    return dict(self=ObjSpec('ParameterParser', _raw_config=AbsObj('ConfigObj', 0, {})), chemistry=mk('Chemistry'), pressure=mk('Pressure'),
+                temperature=mk('Temperature'), planet=mk('Planet'), star=mk('Star'), obs=AbsObj('Given', 'given:obs', {}) if 'obs' in given else None)
+
+
+def _gm_expected(fx):
+    """documented: a component handed in is used as it is; a missing one is built from its own section (None when the section is
+    missing); the model is built from the Model section with the components in the order chemistry, temperature, pressure,
+    planet, star, and the observation by keyword"""
+    secs, given = fx['sections'], fx['given']
+    if 'Model' not in secs:
+        return None, []
+    built, comp = [], {}
+    for nm in _SECTIONS:
+        if nm in given:
+            comp[nm] = 'given:%s' % nm
+        elif nm in secs:
+            built.append((_GEN[nm], 'section:%s' % nm))
+            comp[nm] = _GEN[nm]
+        else:
+            comp[nm] = None
+    call = ('create_model', 'section:Model', (comp['Chemistry'], comp['Temperature'], comp['Pressure'], comp['Planet'], comp['Star']),
+            {'observation': 'given:obs' if 'obs' in given else None})
+    return call, built
+
+
+def _gm_post(c, v0, v1, r):
+    fx = c.fixed if c.mode != 'conc' else c.values
+    call, built = _gm_expected(fx)
+    tr = list(c.trace or [])
+    if call is None:
+        return {'no_model_section_no_model': (r is None) and not tr}
+    gens = [e for e in tr if e[0] != 'create_model']
+    cm = [e for e in tr if e[0] == 'create_model']
+    return {'missing_components_built_from_their_own_sections_in_order': [tuple(e) for e in gens] == built,
+            'model_built_once_from_the_model_section_with_the_components_in_the_documented_order': [tuple(e) for e in cm] == [call],
+            'returns_that_model': (r == 'model') if c.mode == 'conc' else (isinstance(c.raw['ret'], AbsObj) and c.raw['ret'].ident == 'model')}
+
+
+def _gm_native(c, p):
+    import taurex.parameter.parameterparser as mod
+    fx = c.values
+    trace = []
+
+    class _Cfg:
+        def dict(self):
+            return {nm: {'tag': 'section:%s' % nm} for nm in fx['sections']}
+    saved = {}
+    tag = lambda x: getattr(x, 'tag', x)
+
+    class _B:
+        def __init__(self, t):
+            self.tag = t
+    for sec, fn in _GEN.items():
+        saved[fn] = getattr(mod, fn)
+        setattr(mod, fn, (lambda cfg, fn=fn: (trace.append((fn, cfg.get('tag'))), _B(fn))[1]))
+    saved['create_model'] = mod.create_model
+
+    def cm(cfg, *a, **k):
+        trace.append(('create_model', cfg.get('tag'), tuple(tag(x) for x in a), {kk: tag(vv) for kk, vv in k.items()}))
+        return 'model'
+    mod.create_model = cm
+    try:
+        o = mod.ParameterParser.__new__(mod.ParameterParser)
+        o._raw_config = _Cfg()
+        kw = {nm.lower(): (_B('given:%s' % nm) if nm in fx['given'] else None) for nm in _SECTIONS}
+        r = o.generate_model(obs=_B('given:obs') if 'obs' in fx['given'] else None, **kw)
+    finally:
+        for k, v in saved.items():
+            setattr(mod, k, v)
+    return r, dict(p, __trace__=trace)
+
+
+_GM_CASES = [dict(sections=tuple(s), given=tuple(g)) for s, g in [
+    (('Model',) + tuple(_SECTIONS), ()), (('Model',) + tuple(_SECTIONS), ('Chemistry', 'obs')), (('Model', 'Chemistry', 'Planet'), ()),
+    (('Model',), ('Temperature', 'Pressure')), (tuple(_SECTIONS), ()), (('Model', 'Temperature', 'Pressure', 'Star'), ('Star', 'Planet'))]]
+GMU = Unit('C15', PPQ + 'generate_model', _gm_params, post=_gm_post, cases=_GM_CASES, bounds=[{}], native=_gm_native,
+           abstract=dict({'ConfigObj.dict': _h_cfg_dict, 'call:create_model': _h_create_model}, **{'call:' + fn: _h_create(fn) for fn in _GEN.values()}),
+           inline=['generate_chemistry_profile', 'generate_pressure_profile', 'generate_temperature_profile', 'generate_planet', 'generate_star'],
+           gen=lambda rng: dict(rng.choice(_GM_CASES)), short='ParameterParser.generate_model',
+           doc='the model of an input file: built once from the Model section; every component not handed in is built from its own '
+               'section (enumerated section sets), and the components reach create_model in the order chemistry, temperature, pressure, '
+               'planet, star (create_* factories by their own units)')
+
+
+# ------------------------------------------------------------------ generate_fitting_parameters / setup_optimizer: the Fitting and Derive sections
+_FIT_CASES = [dict(sections=(), fitting=f, derive=d) for f, d in [
+    (None, None),
+    ((('T:fit', True), ('T:bounds', 'B1'), ('R:mode', 'LOG')), None),
+    ((('T:fit', False), ('R:fit', True), ('R:factor', 'F1'), ('R:prior', 'Uniform(bounds=(1, 2))')), (('mu:compute', True), ('x:compute', False))),
+    ((('R:bounds', 'B2'), ('R:fit', True), ('T:prior', 'LogUniform(bounds=(0, 1))'), ('T:mode', 'linear')), (('mu:compute', None),))]]
+
+
+def _h_create_prior(ex, st, args, kwargs, node):
+    _ev(st, 'create_prior', args[0])
+    return AbsObj('Prior', 'prior<%s>' % args[0], {})
+
+
+def _gf_expected(fx):
+    out = {}
+    for key, value in (fx['fitting'] or ()):
+        nm, typ = key.split(':')
+        out.setdefault(nm, {'fit': False, 'bounds': None, 'mode': None, 'factor': None, 'prior': None})
+        out[nm][typ] = ('prior<%s>' % value) if typ == 'prior' else value
+    return out
+
+
+def _gf_post(c, v0, v1, r):
+    fx = c.fixed if c.mode != 'conc' else c.values
+    want = _gf_expected(fx)
+    if c.mode == 'conc':
+        got = {k: {kk: (getattr(vv, 'tag', vv)) for kk, vv in v.items()} for k, v in r.items()}
+    else:
+        heap = c.raw['state'].heap
+        ret = c.raw['ret']
+        top = heap[ret.id].items if isinstance(ret, Ref) and isinstance(heap[ret.id], PyDict) else None
+        got = None if top is None else {k: {kk: (vv.ident if isinstance(vv, AbsObj) else vv) for kk, vv in heap[v.id].items.items()} for k, v in top.items()}
+    return {'one_entry_per_parameter_with_every_setting_of_the_section': got == want,
+            'parameters_in_the_order_of_the_file': got is not None and list(got.keys()) == list(want.keys())}
+
+
+def _mk_parser(mod, fx):
+    class _Cfg:
+        def dict(self):
+            d = {}
+            if fx['fitting'] is not None:
+                d['Fitting'] = dict(fx['fitting'])
+            if fx['derive'] is not None:
+                d['Derive'] = dict(fx['derive'])
+            return d
+    o = mod.ParameterParser.__new__(mod.ParameterParser)
+    for nm in ('debug', 'info', 'warning', 'error', 'critical'):
+        setattr(o, nm, lambda *a, **k: None)
+    o._raw_config = _Cfg()
+    return o
+
+
+def _gf_native(c, p):
+    import taurex.parameter.parameterparser as mod
+    import taurex.parameter.factory as fac
+    saved = fac.create_prior
+
+    class _P:
+        def __init__(self, t):
+            self.tag = t
+    fac.create_prior = lambda text: _P('prior<%s>' % text)
+    try:
+        r = _mk_parser(mod, c.values).generate_fitting_parameters()
+    finally:
+        fac.create_prior = saved
+    return r, p
+
+
+GFP = Unit('C15', PPQ + 'generate_fitting_parameters', lambda c: dict(self=ObjSpec('ParameterParser', _raw_config=AbsObj('ConfigObj', 0, {}))
+                                                                      if c.mode != 'conc' else dict(__obj__='ParameterParser')),
+           post=_gf_post, cases=_FIT_CASES, bounds=[{}], abstract={'ConfigObj.dict': _h_cfg_dict, 'call:create_prior': _h_create_prior}, native=_gf_native,
+           gen=lambda rng: dict(rng.choice(_FIT_CASES)), short='ParameterParser.generate_fitting_parameters',
+           doc='the Fitting section "name:setting = value" becomes one entry per parameter with fit / bounds / mode / factor / prior (a prior '
+               'text through create_prior, by its own bounded item), unset settings None (fit False); enumerated sections')
+
+
+def _h_opt(name):
+    def h(ex, st, o, args, kwargs, node):
+        _ev(st, name, *[(a.ident if isinstance(a, AbsObj) else a) for a in args])
+        return None
+    return h
+
+
+def _so_expected(fx):
+    out = []
+    for nm, v in _gf_expected(fx).items():
+        out.append(('enable_fit' if v['fit'] else 'disable_fit', nm))
+        if v['factor']:
+            out.append(('set_factor_boundary', nm, v['factor']))
+        if v['bounds']:
+            out.append(('set_boundary', nm, v['bounds']))
+        if v['mode']:
+            out.append(('set_mode', nm, v['mode'].lower()))
+        if v['prior'] is not None:
+            out.append(('set_prior', nm, v['prior']))
+    for key, value in (fx['derive'] or ()):
+        nm = key.split(':')[0]
+        if value is not None:
+            out.append(('enable_derived' if value else 'disable_derived', nm))
+    return out
+
+
+def _so_post(c, v0, v1, r):
+    fx = c.fixed if c.mode != 'conc' else c.values
+    tr = [tuple(e) for e in (c.trace or []) if e[0] != 'create_prior']
+    return {'optimizer_configured_exactly_as_the_sections_say_in_file_order': tr == _so_expected(fx)}
+
+
+def _so_native(c, p):
+    import taurex.parameter.parameterparser as mod
+    import taurex.parameter.factory as fac
+    trace = []
+
+    class _P:
+        def __init__(self, t):
+            self.tag = t
+
+    class _Opt:
+        def __getattr__(self, name):
+            return lambda *a: trace.append((name,) + tuple(getattr(x, 'tag', x) for x in a))
+    saved = fac.create_prior
+    fac.create_prior = lambda text: _P('prior<%s>' % text)
+    try:
+        _mk_parser(mod, c.values).setup_optimizer(_Opt())
+    finally:
+        fac.create_prior = saved
+    return None, dict(p, __trace__=trace)
+
+
+SOP = Unit(['C15', 'C07'], PPQ + 'setup_optimizer', lambda c: dict(self=ObjSpec('ParameterParser', _raw_config=AbsObj('ConfigObj', 0, {}))
+                                                                   if c.mode != 'conc' else dict(__obj__='ParameterParser'),
+                                                                   optimizer=AbsObj('Optimizer', 0, {}) if c.mode != 'conc' else dict(__obj__='Optimizer')),
+           post=_so_post, cases=_FIT_CASES, bounds=[{}], native=_so_native, gen=lambda rng: dict(rng.choice(_FIT_CASES)),
+           abstract=dict({'ConfigObj.dict': _h_cfg_dict, 'call:create_prior': _h_create_prior},
+                         **{'Optimizer.' + m: _h_opt(m) for m in ('enable_fit', 'disable_fit', 'set_factor_boundary', 'set_boundary', 'set_mode',
+                                                                  'set_prior', 'enable_derived', 'disable_derived')}),
+           inline=['generate_fitting_parameters', 'generate_derived_parameters'], short='ParameterParser.setup_optimizer',
+           doc='what the input file asks of a retrieval reaches the optimizer: per parameter enable/disable, factor, bounds, lower-cased mode and '
+               'prior, then the derived parameters, in file order and nothing else (the Optimizer mutators by their own units, C07)')
